@@ -11,6 +11,7 @@ import (
 
 	"github.com/cube2222/octosql/datasources/json"
 	"github.com/cube2222/octosql/execution/files"
+	"github.com/cube2222/octosql/physical"
 )
 
 func init() {
@@ -103,6 +104,19 @@ func genC23(g *Gen, tier string, w *bufio.Writer) {
 		pre := fmt.Sprintf("stdin %d %d ", g.U64()>>1, g.Intn(3))
 		fmt.Fprintln(w, pre+jsonOp(g.U64()>>1, genJSONDoc(g, 3000, true)))
 	}
+	// --- pruned schemas (the optimizer drops unused columns): the kept columns still carry their own cells
+	for i := 0; i < 25*mul; i++ {
+		mask := Pick(g, []string{"10", "01", "110", "011", "101", "1", "0", "100"})
+		if g.Bool() {
+			d := genCSVDoc(g, Pick(g, []int{1, 2, 5, 20, 101, 120}), g.Bool())
+			if dupNames(d.names) {
+				continue
+			}
+			fmt.Fprintln(w, "proj "+mask+" "+d.op(g.U64()>>1))
+		} else {
+			fmt.Fprintln(w, "proj "+mask+" "+jsonOp(g.U64()>>1, genJSONDoc(g, Pick(g, []int{1, 2, 5, 20, 101, 120}), g.Bool())))
+		}
+	}
 	// --- the reorder queue under seeded worker delays
 	for _, n := range []int{0, 1, 63, 64, 65, 127, 128, 129, 640, 1000, 2500} {
 		for i := 0; i < 2*mul; i++ {
@@ -124,6 +138,21 @@ func driveFiles(toks []string) string {
 	case "json", "csv", "lines":
 		format, name, data, opts := fileOf(toks)
 		return runBytes(format, name, data, opts)
+	case "proj":
+		// the optimizer hands the executing datasource a pruned schema: keep the fields selected by a cyclic 0/1 mask
+		mask := toks[1]
+		format, name, data, opts := fileOf(toks[2:])
+		dir, path := writeScratch("files", name, data)
+		defer os.RemoveAll(dir)
+		return runDatasource(format, path, opts, func(s physical.Schema) physical.Schema {
+			var fields []physical.SchemaField
+			for i, f := range s.Fields {
+				if mask[i%len(mask)] == '1' {
+					fields = append(fields, f)
+				}
+			}
+			return physical.NewSchema(fields, -1, physical.WithNoRetractions(true))
+		}).line()
 	case "stdin":
 		chunkSeed, _ := strconv.ParseUint(toks[1], 10, 64)
 		previews, _ := strconv.Atoi(toks[2])
@@ -333,4 +362,15 @@ func runQueue(seed uint64, n int) string {
 	mu.Lock()
 	defer mu.Unlock()
 	return strings.Join(log, " ")
+}
+
+func dupNames(names []string) bool {
+	seen := map[string]bool{}
+	for _, n := range names {
+		if seen[n] {
+			return true
+		}
+		seen[n] = true
+	}
+	return false
 }
